@@ -34,6 +34,10 @@ func (ks KeySet) Foreach(fn func(Key)) {
 }
 
 func (ks KeySet) Exists(k Key) bool {
+	if ks.head == nil {
+		// Empty set. A nil head must not be mistaken for an empty key.
+		return false
+	}
 	if ks.head.Equal(k) {
 		return true
 	}
@@ -49,5 +53,11 @@ func NewKeySet(keys ...Key) KeySet {
 	if len(keys) == 0 {
 		return KeySet{}
 	}
-	return KeySet{keys[0], keys[1:]}
+	head := keys[0]
+	if head == nil {
+		// A nil head denotes the empty set, so store an empty key as
+		// a non-nil one.
+		head = Key{}
+	}
+	return KeySet{head, keys[1:]}
 }
